@@ -1809,7 +1809,7 @@ End PwCopy.
 End PwCopy.
 Local Open Scope S_scope.
 
-(* pointwise_matrix, CURRENT code (after /repo 2f75975): counting pass = fill pass, fuel, wf *)
+(* pointwise_matrix, CURRENT code (after /repo 0e81e11): counting pass = fill pass, fuel, wf *)
 Module PwNew.
 Local Close Scope S_scope.
 Section PwNew.
@@ -3488,7 +3488,7 @@ End Blk.
 Local Open Scope S_scope.
 
 (* ------------------------------------------------------------------ *)
-(* pointwise_matrix BEFORE /repo commit 2f75975 (definitions *_old): the specification "entry
+(* pointwise_matrix BEFORE /repo commit 0e81e11 (definitions *_old): the specification "entry
    (I,J) = largest norm in block (I,J), pattern = non-empty blocks" was violated by the scan as it
    was coded then.  The current code satisfies it: PwSpec.pointwise_matrix_spec. *)
 
